@@ -314,6 +314,26 @@ Theorem C12_like_written_local_zero_iff :
 Proof. exact like_written_local_zero_iff. Qed.
 Print Assumptions C12_like_written_local_zero_iff.
 
+(* the lattice form of FILL is read locally too (premise of li_num): ranges, as
+   many plain universe numbers as the ranges hold, numeric parameters - whatever
+   follows, as long as it does not start like a number. So a FILL = i:j ... on a
+   card of a LIKE chain is inside C12_like_written_local_zero_iff. (Array entries
+   written with nR are not covered by this lemma.) *)
+Theorem C12_fill_array_read_locally :
+  forall (T : Type) (Sc : Scalar T) (P : prims T) (t r0 : string) (rs : list string)
+         (u0 : string) (us params : list string) (bnds : list (Z * Z)) (fp : trparams T),
+    String.prefix "imp" t = false -> contains_sub "fill" t = true ->
+    forallb (contains_char ":") (r0 :: rs) = true -> parse_ranges (r0 :: rs) = Ok bnds ->
+    contains_char ":" u0 = false -> Forall (plain_value P) (u0 :: us) ->
+    Z.of_nat (List.length (u0 :: us)) = bounds_size bnds ->
+    forallb is_numstart params = true ->
+    fill_params Sc P false (contains_char "*" t) params = Ok fp ->
+    forall rest, hd_not_num rest -> forall k,
+      exists k', kw_step Sc P t (((r0 :: rs) ++ (u0 :: us) ++ params) ++ rest) k
+                 = Ok (k', List.length ((r0 :: rs) ++ (u0 :: us) ++ params)).
+Proof. exact @fillarr_local. Qed.
+Print Assumptions C12_fill_array_read_locally.
+
 (* explicit card *)
 Theorem C12_cell_card_zero_iff :
   forall (P : prims R) (imp_cards : list (string * list string)) (cards : list card)
